@@ -209,10 +209,12 @@ func newNode(kind string, mode string, nvals int) (n *node, err error) {
 		r.SetLogger(nopLogger)
 		n.sw.AddReactor("EVIDENCE", r)
 		n.reactor = r
-	case "blockchain":
+	case "blockchain", "blockchain-ho":
 		mp := mpmock.Mempool{}
 		blockExec := sm.NewBlockExecutor(stateStore, nopLogger, proxyApp.Consensus(), mp, sm.EmptyEvidencePool{})
-		r := bcv0.NewBlockchainReactor(state, blockExec, blockStore, true)
+		// "-ho": the state after the hand-over to consensus (or fast_sync = false): the block pool
+		// does not run and nobody drains its channels
+		r := bcv0.NewBlockchainReactor(state, blockExec, blockStore, kind == "blockchain")
 		r.SetLogger(nopLogger)
 		n.sw.AddReactor("BLOCKCHAIN", r)
 		if e := r.Start(); e != nil {
@@ -266,7 +268,7 @@ func newNode(kind string, mode string, nvals int) (n *node, err error) {
 		n.probes = []func(){fromProbePeer(0x30, mustMarshal(&mpproto.Message{Sum: &mpproto.Message_Txs{Txs: &mpproto.Txs{Txs: [][]byte{[]byte("probe=1")}}}}))}
 	case "evidence":
 		n.probes = []func(){fromProbePeer(0x38, mustMarshal(&tmproto.EvidenceList{}))}
-	case "blockchain":
+	case "blockchain", "blockchain-ho":
 		n.probes = []func(){fromProbePeer(0x40, mustMarshal(&bcproto.Message{Sum: &bcproto.Message_StatusRequest{StatusRequest: &bcproto.StatusRequest{}}}))}
 	case "statesync":
 		n.probes = []func(){fromProbePeer(0x60, mustMarshal(&ssproto.Message{Sum: &ssproto.Message_SnapshotsRequest{SnapshotsRequest: &ssproto.SnapshotsRequest{}}}))}
@@ -612,6 +614,106 @@ func (n *node) prsLine() string {
 		bsz(p.Prevotes), bsz(p.Precommits), p.LastCommitRound, bsz(p.LastCommit), p.CatchupCommitRound, bsz(p.CatchupCommit))
 }
 
+// farBlock builds a well-formed block (it passes BlockFromProto / ValidateBasic) for a height far
+// from the pool's: an unsolicited BlockResponse the pool reports as an error
+func (n *node) farBlock(height int64) *tmproto.Block {
+	pk, _ := n.vals[0].GetPubKey()
+	bid := types.BlockID{Hash: bytesOf(32, 3), PartSetHeader: types.PartSetHeader{Total: 1, Hash: bytesOf(32, 4)}}
+	commit := types.NewCommit(height-1, 0, bid, []types.CommitSig{
+		types.NewCommitSigForBlock(bytesOf(64, 5), pk.Address(), time.Unix(1600000009, 0).UTC())})
+	blk, _ := n.state.MakeBlock(height, nil, commit, nil, pk.Address())
+	pb, err := blk.ToProto()
+	if err != nil {
+		panic(err)
+	}
+	if _, err := types.BlockFromProto(pb); err != nil {
+		panic("harness: far block is not well-formed: " + err.Error())
+	}
+	return pb
+}
+
+// handoverFlood: a hostile peer sends `count` messages that make the reactor report or record
+// something, to a reactor in its post-hand-over state (nobody consumes its internal channels);
+// then an honest peer's message must still be handled and RemovePeer must return.
+func (n *node) handoverFlood(count int) string {
+	var msgs [][]byte
+	var chs []byte
+	add := func(ch byte, b []byte) { chs = append(chs, ch); msgs = append(msgs, b) }
+	switch n.kind {
+	case "blockchain", "blockchain-ho":
+		far := mustMarshal(&bcproto.Message{Sum: &bcproto.Message_BlockResponse{BlockResponse: &bcproto.BlockResponse{Block: n.farBlock(5000)}}})
+		for i := 0; i < count; i++ {
+			switch i % 32 {
+			case 30:
+				add(0x40, mustMarshal(&bcproto.Message{Sum: &bcproto.Message_StatusResponse{StatusResponse: &bcproto.StatusResponse{Base: 1, Height: int64(100 + i)}}}))
+			case 31:
+				add(0x40, mustMarshal(&bcproto.Message{Sum: &bcproto.Message_NoBlockResponse{NoBlockResponse: &bcproto.NoBlockResponse{Height: int64(i)}}}))
+			default:
+				add(0x40, far)
+			}
+		}
+	case "statesync":
+		for i := 0; i < count; i++ {
+			if i%2 == 0 {
+				add(0x61, mustMarshal(&ssproto.Message{Sum: &ssproto.Message_ChunkResponse{ChunkResponse: &ssproto.ChunkResponse{Height: 7, Format: 1, Index: uint32(i), Chunk: []byte{1, 2, 3}}}}))
+			} else {
+				add(0x60, mustMarshal(&ssproto.Message{Sum: &ssproto.Message_SnapshotsResponse{SnapshotsResponse: &ssproto.SnapshotsResponse{Height: uint64(1 + i), Format: 1, Chunks: 3, Hash: bytesOf(32, byte(i))}}}))
+			}
+		}
+	case "pex", "pexseed":
+		for i := 0; i < count; i++ {
+			add(0x00, mustMarshal(&tmp2pp.Message{Sum: &tmp2pp.Message_PexRequest{PexRequest: &tmp2pp.PexRequest{}}}))
+		}
+	default:
+		return "bad-op"
+	}
+	hostile := p2pmock.NewPeer(net.IPv4(10, 7, 0, 1))
+	n.stop = append(n.stop, func() { hostile.Stop() }) //nolint
+	panics := 0
+	if !within(20*time.Second, func() {
+		for i := range msgs {
+			func() {
+				defer func() {
+					if r := recover(); r != nil {
+						panics++
+					}
+				}()
+				if n.kind == "pex" || n.kind == "pexseed" {
+					// every request from a fresh peer (the rate limit is per peer)
+					p := p2pmock.NewPeer(net.IPv4(10, 6, byte(i>>8), byte(i)))
+					n.reactor.Receive(chs[i], p, msgs[i])
+					n.reactor.RemovePeer(p, "done")
+					p.Stop() //nolint
+					return
+				}
+				n.reactor.Receive(chs[i], hostile, msgs[i])
+			}()
+		}
+	}) {
+		n.stuck = true
+		return "WEDGED-handover-flood:hostile-receive-does-not-return"
+	}
+	if panics > 0 {
+		return fmt.Sprintf("handover-flood-panics:%d", panics)
+	}
+	// an honest peer is still served
+	for i, f := range n.probes {
+		if !within(5*time.Second, f) {
+			n.stuck = true
+			return fmt.Sprintf("WEDGED-handover-flood:honest-message-%d-not-handled", i)
+		}
+	}
+	if !within(5*time.Second, func() { n.reactor.RemovePeer(hostile, "bye") }) {
+		n.stuck = true
+		return "WEDGED-handover-flood:RemovePeer-does-not-return"
+	}
+	if !within(5*time.Second, func() { n.reactor.RemovePeer(n.pPeer, "bye") }) {
+		n.stuck = true
+		return "WEDGED-handover-flood:RemovePeer-does-not-return"
+	}
+	return "alive"
+}
+
 func (n *node) health() string {
 	if n.cs == nil {
 		return "healthy"
@@ -680,6 +782,8 @@ func execReactor(c core.Case) []string {
 			out = append(out, n.health())
 		case "flood":
 			out = append(out, n.flood(atoi(m["peers"]), atoi(m["per"]), m["mix"]))
+		case "hflood":
+			out = append(out, n.handoverFlood(atoi(m["n"])))
 		default:
 			out = append(out, "bad-op")
 		}
@@ -731,6 +835,12 @@ func oracleReactor(c core.Case, out []string) []core.Finding {
 			}
 			fs = append(fs, core.Finding{Fingerprint: kind + ".reactor.wedged-after-" + cls,
 				Desc: fmt.Sprintf("%s reactor: after the %s message (%s) the node no longer answers its liveness probe (state readable, well-formed message of another peer handled, each within 5 s): %s", kind, m["kind"], trunc(op, 160), o)})
+		case strings.HasPrefix(o, "WEDGED-handover-flood"):
+			pre := map[string]string{"blockchain-ho": "blockchain.v0", "blockchain": "blockchain.v0", "statesync": "statesync", "pex": "p2p.pex", "pexseed": "p2p.pex"}[kind]
+			fs = append(fs, core.Finding{Fingerprint: pre + ".Receive.flood-after-handover-wedges-reactor",
+				Desc: fmt.Sprintf("%s reactor in its post-hand-over state: after a peer sent %s well-formed messages %s", kind, m["n"], full)})
+		case verb == "hflood" && o != "alive":
+			fs = append(fs, core.Finding{Fingerprint: kind + ".reactor.handover-flood-" + strings.SplitN(o, ":", 2)[0], Desc: full})
 		case strings.HasPrefix(o, "WEDGED-flood"):
 			fs = append(fs, core.Finding{Fingerprint: kind + ".reactor.wedged-by-flood",
 				Desc: fmt.Sprintf("%s reactor: %s peers concurrently delivered %s well-formed messages each (mix %s); afterwards %s", kind, m["peers"], m["per"], m["mix"], o)})
@@ -1420,6 +1530,12 @@ func genReactor(r *rand.Rand, emit func(core.Case), tier string) {
 		emit(core.Case{Kind: "reactor", Ops: []string{"reactor kind=consensus mode=" + mode,
 			fmt.Sprintf("flood peers=%d per=%d mix=%s expect=alive", 3+r.Intn(3), per, mix), "health"}})
 		note("reactor-consensus-flood-" + mix)
+	}
+	// floods against reactors in their post-hand-over state (nobody drains their internal channels)
+	for _, k := range []string{"blockchain-ho", "blockchain", "statesync", "pex"} {
+		emit(core.Case{Kind: "reactor", Ops: []string{"reactor kind=" + k,
+			fmt.Sprintf("hflood n=%d expect=alive", 1150+r.Intn(200)), "health"}})
+		note("reactor-" + k + "-handover-flood")
 	}
 	for _, k := range []string{"mempool", "evidence"} {
 		emit(core.Case{Kind: "reactor", Ops: []string{"reactor kind=" + k,
